@@ -92,9 +92,10 @@ class Refile:
     """runs a rule family of one property under the rule names of another property that states the same clause
     (e.g. the amounts of C02 are the pot arithmetic of C01); floors of the original family are not re-registered"""
 
-    def __init__(self, chk, mapping: dict):
+    def __init__(self, chk, mapping: dict, only=None):
         self.chk = chk
         self.mapping = mapping
+        self.only = only
 
     def _name(self, rule):
         for src, dst in self.mapping.items():
@@ -102,11 +103,11 @@ class Refile:
                 return dst + rule[len(src):]
         return None
 
-    def ob(self, rule, *a, **k):
+    def ob(self, rule, construct, *a, **k):
         new = self._name(rule)
-        if new is None:
+        if new is None or (self.only is not None and not self.only(rule, construct)):
             return True
-        return self.chk.ob(new, *a, **k)
+        return self.chk.ob(new, construct, *a, **k)
 
     def floor(self, rule, n):
         return None
@@ -144,3 +145,16 @@ def rotated_helper(chk, ctx, rule) -> None:
         rot = [e for e in p.events if e.kind == 'call' and e.term[0] == 'mcall' and e.term[2] == 'rotate']
         ok = r == T.spec('deque(values)') and len(rot) == 1 and unversion(rot[0].term[1]) == r and rot[0].term[3] == (('name', 'count'),)
     chk.ob(rule, 'utilities.rotated', ok, fi.loc, 'rotated(values, n) returns deque(values) rotated by exactly n (seat order starts after the button)')
+
+
+def parse_value_helper(chk, ctx, rule) -> None:
+    """utilities.parse_value: int when the text is one, otherwise an exact Decimal; thousands separators dropped"""
+    import ast
+    from .. import terms as T
+    mi = ctx.prog.module('utilities')
+    pv = mi.functions.get('parse_value')
+    ok = pv is not None and any(isinstance(n, ast.Try) and 'int(raw_value)' in ast.unparse(n.body) and any('Decimal(raw_value)' in ast.unparse(h) for h in n.handlers)
+                                 for n in ast.walk(pv.node)) and any(T.norm(n.value) == T.spec("raw_value.replace(',', '')") for n in ast.walk(pv.node) if isinstance(n, ast.Assign))
+    chk.ob(rule, 'utilities.parse_value', ok, pv.loc if pv else 'pokerkit/utilities.py',
+           'chip text is an int when it can be, otherwise an exact Decimal (so `inf`, exponents and fractions written by the dumper '
+           'read back); thousands separators are ignored')
